@@ -502,7 +502,16 @@ func buildVarsNoSort(vs VarSet) *variables.VariableCollection {
 
 func (propC19) Exec(p *Plan, x *Ctx) *Outcome {
 	out := NewOutcome()
-	run := NewRun(200_000)
+	// step budget per operation: generous and growing with the size of the texts (the thorough tier triples
+	// the generators' size bounds; a budget that a large but finite parse exceeds would be a harness failure)
+	textLen := 0
+	for _, o := range p.Setup {
+		textLen += len(o.S)
+	}
+	for _, tp := range p.Tasks {
+		textLen += len(tp.Text)
+	}
+	run := NewRun(200_000 + 4000*int64(textLen))
 	mo, _ := strconv.ParseUint(p.Cfg("maporder", "0"), 10, 64)
 	SetMapOrder(mo)
 	defer SetMapOrder(0)
